@@ -591,6 +591,15 @@ impl NISPSignaturePoK {
 
         let mut t_Cx = Integer::from(1);
         let N = &signer_pk.N;
+        // the four commitments only ever enter as bases of modular exponentiations: C + k*N and
+        // (for even exponents) -C would be accepted in their place. Only canonical residues are
+        // valid encodings.
+        if [&self.Cx, &self.Cv, &self.Cw, &self.Ce]
+            .iter()
+            .any(|c| c.value < 0 || &c.value >= N)
+        {
+            return false;
+        }
         let mut idx: usize = 0;
         let mut idx_revealed_msgs: usize = 0;
 
